@@ -142,33 +142,43 @@ pub fn run(c: &Case) -> Outcome {
         return out;
     }
     let got: Vec<&ClientEvent> = s.server.events[base_events..].iter().map(|e| &e.0).collect();
+    compare_inputs(&mut out, &got, &want, c.share_id);
+    out
+}
+
+/// one-to-one comparison of the decoded input PDUs with the submitted sendable events
+pub fn compare_inputs(out: &mut Outcome, got: &[&ClientEvent], want: &[&Step], share: u32) {
+    struct C {
+        share_id: u32,
+    }
+    let c = C { share_id: share };
     if got.len() != want.len() {
         out.fail(if got.len() < want.len() { "input:count:missing" } else { "input:count:extra" }, format!("{} input PDUs decoded for {} submitted events", got.len(), want.len()));
-        return out;
+        return;
     }
     for (i, (g, w)) in got.iter().zip(want.iter()).enumerate() {
         let evs = match g {
             ClientEvent::Data { body: DataBody::Input(evs), share_id, .. } => {
                 if *share_id != c.share_id {
                     out.fail("input:share-id", format!("input PDU #{} carries share id {:#x}, negotiated {:#x}", i, share_id, c.share_id));
-                    return out;
+                    return;
                 }
                 evs
             }
             other => {
                 out.fail("input:not-an-input-pdu", format!("client message #{} is {:?}", i, other.kind()));
-                return out;
+                return;
             }
         };
         if evs.len() != 1 {
             out.fail("input:num-events", format!("input PDU #{} carries {} events", i, evs.len()));
-            return out;
+            return;
         }
         match (w, &evs[0]) {
             (Step::Pointer { x, y, button: b, down, .. }, InputEvent::Mouse { flags, x: gx, y: gy, .. }) => {
                 if gx != x || gy != y {
                     out.fail("input:pointer-coordinates", format!("event #{}: sent ({}, {}) decoded ({}, {})", i, x, y, gx, gy));
-                    return out;
+                    return;
                 }
                 let want_btn: u16 = match b & 3 {
                     1 => 0x1000,
@@ -179,23 +189,80 @@ pub fn run(c: &Case) -> Outcome {
                 let ok = if want_btn != 0 { flags & 0x7000 == want_btn && (flags & 0x8000 != 0) == *down && flags & 0x0800 == 0 } else { flags & 0x7000 == 0 && flags & 0x0800 != 0 };
                 if !ok || flags & 0x07FF != 0 {
                     out.fail(format!("input:pointer-flags:button{}", b & 3), format!("event #{}: button {} down {} encoded as pointerFlags {:#06x}", i, b & 3, down, flags));
-                    return out;
+                    return;
                 }
             }
             (Step::Key { code, down, .. }, InputEvent::Scancode { flags, code: gc, .. }) => {
                 if gc != code {
                     out.fail("input:key-code", format!("event #{}: sent scancode {} decoded {}", i, code, gc));
-                    return out;
+                    return;
                 }
                 if (flags & 0x8000 != 0) == *down || flags & 0x0300 != 0 {
                     out.fail("input:key-flags", format!("event #{}: key down {} encoded as keyboardFlags {:#06x}", i, down, flags));
-                    return out;
+                    return;
                 }
             }
             (w, g) => {
                 out.fail("input:kind", format!("event #{}: sent {:?} decoded {:?}", i, w, g));
+                return;
+            }
+        }
+    }
+}
+
+/// the same oracle through Connector::connect over TLS (write / try_write after the activation, then shutdown)
+pub fn run_tls(c: &Case) -> Outcome {
+    use crate::tls::{self, NlaCfg, TlsServerCfg};
+    let mut out = Outcome::new();
+    out.nontrivial(true);
+    let profile = ServerProfile::simple(c.user_id, c.share_id);
+    let cfg = ClientCfg { nla: false, ..ClientCfg::simple() };
+    let scfg = TlsServerCfg { identity: 3, reply: refimpl::wire::NegReply::Response { flags: 0, selected: 1 }, nla: None::<NlaCfg>, profile, record_cut: 0 };
+    let mut want: Vec<&Step> = Vec::new();
+    let mut local_fail: Option<(String, String)> = None;
+    let run = tls::run_tls(&cfg, &scfg, 5, true, &mut |client| {
+        for (i, st) in c.steps.iter().enumerate() {
+            let r = match st {
+                Step::Pointer { x, y, button: b, down, lenient } => {
+                    let ev = RdpEvent::Pointer(PointerEvent { x: *x, y: *y, button: button(*b), down: *down });
+                    Some(if *lenient { client.try_write(ev) } else { client.write(ev) })
+                }
+                Step::Key { code, down, lenient } => {
+                    let ev = RdpEvent::Key(KeyboardEvent { code: *code, down: *down });
+                    Some(if *lenient { client.try_write(ev) } else { client.write(ev) })
+                }
+                _ => None,
+            };
+            match r {
+                Some(Ok(())) => want.push(st),
+                Some(Err(e)) => {
+                    local_fail = Some(("input:tls:write-error".into(), format!("step #{} {:?} failed: {:?}", i, st, e)));
+                    return;
+                }
+                None => {}
+            }
+        }
+    });
+    if run.client_timeout || run.report.timeout {
+        out.fail("inconclusive:timeout", "a socket timeout hit; not counted as a violation");
+        return out;
+    }
+    if let Some((s, d)) = local_fail {
+        out.fail(s, d);
+        return out;
+    }
+    match (&run.connect, &run.report.server) {
+        (Res::Ok(()), Some(server)) => {
+            if let Some(v) = server.violations.first() {
+                out.fail(format!("input:tls:server-violation:{}", crate::props::c03::norm(v)), v.clone());
                 return out;
             }
+            let got: Vec<&ClientEvent> = server.events.iter().map(|e| &e.0).filter(|e| matches!(e, ClientEvent::Data { body: DataBody::Input(_), .. })).collect();
+            compare_inputs(&mut out, &got, &want, c.share_id);
+        }
+        (Res::Panic(p), _) => fail_panic(&mut out, "Connector::connect", p),
+        (other, _) => {
+            out.fail("input:tls:connect-error", format!("{}", other.kind()));
         }
     }
     out
@@ -232,6 +299,8 @@ pub fn check(rep: &Report) {
     rep.assume("keyboard flags other than RELEASE and the EXTENDED bits are unconstrained");
     rep.list("button-matrix", matrix(), run);
     rep.random("histories", rep.tier.n(60_000, 3_000_000), 260, decode, run);
+    crate::tls::pki();
+    rep.random("tls", rep.tier.n(300, 10_000), 200, decode, run_tls);
     rep.require("histories", "interleaved-server-traffic", 1000);
     rep.require("histories", "unsendable", 1000);
 }
